@@ -14,6 +14,7 @@ r1 = [m for m in rows if m.get('round', 1) == 1]
 r2 = [m for m in rows if m.get('round', 1) == 2]
 r3 = [m for m in rows if m.get('round', 1) == 3]
 r4 = [m for m in rows if m.get('round', 1) == 4]
+r5 = [m for m in rows if m.get('round', 1) == 5]
 tbl = ["| change | round | what it needs | caught by check | class | at first try |", "|---|---|---|---|---|---|"]
 for m in rows:
     tbl.append(f"| {m['id']} | {m.get('round', 1)} | {m.get('needs_to_manifest', '')} | {m.get('detected_by_check', '')} | `{m.get('violation_class', '')}` | {'NOT CAUGHT' if notcaught(m) else ('yes' if first(m) else 'no')} |")
@@ -42,7 +43,7 @@ caught by the check as it stood, {sum(not first(m) for m in r1)} only after the 
 strengthened. Round 2 asked different agents for *less obvious* changes
 (secondary clauses, error/expiry/cancellation paths, per-instance vs shared
 state, second uses of an object, special values): {len(r2)} so far, {sum(first(m) for m in r2)} caught at
-once, {sum(not first(m) for m in r2)} after strengthening. Round 3 asked a third set of agents for yet other directions (helper code, extreme configuration values, N-th use and declaration order, cooperating edits, ten or more parties) on eight properties: {len(r3)} changes, {sum(first(m) for m in r3)} caught at once, {sum((not first(m)) and (not notcaught(m)) for m in r3)} after strengthening (that one exposed a genuine defect of the unchanged code), {sum(notcaught(m) for m in r3)} not caught: C02-5, starvation by a busy-polling task, which virtual time cannot show (section 7). Round 4 (the eight properties round 3 had left out: C01, C03, C04, C05, C11, C12, C13, C14; agents asked for cooperating edits, leftover state, expiry and error paths, N-th use) gave {len(r4)} changes, several of them rediscoveries of earlier ones by independent agents: {sum(first(m) for m in r4)} caught at once, {sum((not first(m)) and (not notcaught(m)) for m in r4)} after strengthening (C13-5). Every strengthening was
+once, {sum(not first(m) for m in r2)} after strengthening. Round 3 asked a third set of agents for yet other directions (helper code, extreme configuration values, N-th use and declaration order, cooperating edits, ten or more parties) on eight properties: {len(r3)} changes, {sum(first(m) for m in r3)} caught at once, {sum((not first(m)) and (not notcaught(m)) for m in r3)} after strengthening (that one exposed a genuine defect of the unchanged code), {sum(notcaught(m) for m in r3)} not caught: C02-5, starvation by a busy-polling task, which virtual time cannot show (section 7). Round 4 (the eight properties round 3 had left out: C01, C03, C04, C05, C11, C12, C13, C14; agents asked for cooperating edits, leftover state, expiry and error paths, N-th use) gave {len(r4)} changes, several of them rediscoveries of earlier ones by independent agents: {sum(first(m) for m in r4)} caught at once, {sum((not first(m)) and (not notcaught(m)) for m in r4)} after strengthening (C13-5). Round 5 aimed at the machinery added in this session: agents for C01 and C03 were told to change only the TCP glue (`tcp_session.rs`, `tcp.rs`: what E1 replaces by a stub and only the new *.stack scenarios run), two more agents took C16 and C20 once more: {len(r5)} changes, {sum(first(m) for m in r5)} caught at once (the four glue changes by C01.stack / C03.stack alone, as it must be - engine E1 never executes those files). Every strengthening was
 first run on the unchanged tree (it must stay silent there); two of them found
 further genuine defects in the unchanged code (the reassembly `div_ceil`
 overflow and Forward's pre-barrier session, section 9.3).
